@@ -1,0 +1,84 @@
+// Copyright 2026 Dolthub, Inc.
+//
+// Licensed under the Apache License, Version 2.0 (the "License");
+// you may not use this file except in compliance with the License.
+// You may obtain a copy of the License at
+//
+//     http://www.apache.org/licenses/LICENSE-2.0
+//
+// Unless required by applicable law or agreed to in writing, software
+// distributed under the License is distributed on an "AS IS" BASIS,
+// WITHOUT WARRANTIES OR CONDITIONS OF ANY KIND, either express or implied.
+// See the License for the specific language governing permissions and
+// limitations under the License.
+
+//go:build verif
+
+package blobstore
+
+import (
+	"context"
+	"io"
+
+	"golang.org/x/sync/errgroup"
+)
+
+// Verification vocabulary (ghost code, compiled only with -tags verif). The
+// bodies are executable so that contracts can also be run concretely.
+
+func verif_old[T any](x T) T { return x }
+
+func verif_res[T any](i int) T { var z T; return z }
+
+func verif_implies(a, b bool) bool { return !a || b }
+
+func verif_forall(lo, hi int, f func(int) bool) bool {
+	for k := lo; k < hi; k++ {
+		if !f(k) {
+			return false
+		}
+	}
+	return true
+}
+
+func verif_exists(lo, hi int, f func(int) bool) bool {
+	for k := lo; k < hi; k++ {
+		if f(k) {
+			return true
+		}
+	}
+	return false
+}
+
+func verif_assert(b bool) {
+	if !b {
+		panic("verif_assert failed")
+	}
+}
+
+func verif_assume(b bool) {}
+
+// ---- the documented meaning of a BlobRange over a blob of |size| bytes
+
+// verif_range_start: negative offsets count from the end.
+func verif_range_start(br BlobRange, size int64) int64 {
+	if br.offset < 0 {
+		return size + br.offset
+	}
+	return br.offset
+}
+
+// verif_range_end: length 0 means "to the end"; a range running past the end is clamped.
+func verif_range_end(br BlobRange, size int64) int64 {
+	s := verif_range_start(br, size)
+	if br.length == 0 || s+br.length > size {
+		return size
+	}
+	return s + br.length
+}
+
+func verif_x_Reader_Read(r io.Reader, p []byte) (n int, err error) { return r.Read(p) }
+
+func verif_x_errgroup_WithContext(ctx context.Context) (g *errgroup.Group, c context.Context) {
+	return errgroup.WithContext(ctx)
+}
